@@ -15,6 +15,8 @@ use crate::connection::ConnectionInfo;
 use crate::server::configuration::ServerConfiguration;
 use crate::server::worker::{ConnectionMessage, Worker, WorkerHandle};
 
+#[cfg(pavex_verif)]
+use super::verif;
 use super::{IncomingStream, ShutdownMode};
 
 /// A handle to a running [`Server`](super::Server).
@@ -241,6 +243,8 @@ where
                         completion_notifier,
                         mode,
                     } => {
+                        #[cfg(pavex_verif)]
+                        verif::event("acceptor_shutdown_received", mode.is_graceful(), 0u64);
                         Self::shutdown(
                             completion_notifier,
                             mode,
@@ -273,6 +277,8 @@ where
                             )
                         }
                     };
+                    #[cfg(pavex_verif)]
+                    verif::event("acceptor_took_connection", remote_peer.port(), 0u64);
                     // Re-spawn the task to keep accepting connections from the same socket.
                     incoming_join_set.spawn(accept_connection(incoming));
 
@@ -303,6 +309,8 @@ where
                                 next_worker = (next_worker + 1) % n_workers;
                             }
                             _ => {
+                                #[cfg(pavex_verif)]
+                                verif::event("dispatched", next_worker, remote_peer.port());
                                 // We've successfully sent the connection to a worker, so we can stop trying
                                 // to send it to other workers.
                                 has_been_handled = true;
@@ -326,6 +334,8 @@ where
                     }
 
                     if !has_been_handled {
+                        #[cfg(pavex_verif)]
+                        verif::event("dropped_all_workers_busy", remote_peer.port(), 0u64);
                         tracing::error!(
                             remote_peer = %remote_peer,
                             "All workers are busy, dropping connection",
@@ -376,11 +386,17 @@ where
         incoming_join_set: JoinSet<(IncomingStream, TcpStream, SocketAddr)>,
         worker_handles: Vec<WorkerHandle>,
     ) {
+        #[cfg(pavex_verif)]
+        verif::event("coordinator_begin", worker_handles.len(), 0u64);
         // This drops the `JoinSet`, which will cause all the tasks that are still running to
         // be cancelled.
         // It will in turn cause the `Incoming` to be dropped, which will cause the `TcpListener`
         // to be dropped, thus closing the socket and stopping acceptance of new connections.
         drop(incoming_join_set);
+        #[cfg(pavex_verif)]
+        verif::event("listeners_dropped", 0u64, 0u64);
+        #[cfg(pavex_verif)]
+        verif::point("acceptor_after_listeners_dropped", 0u64);
 
         let mut shutdown_join_set = JoinSet::new();
         for worker_handle in worker_handles {
@@ -393,6 +409,8 @@ where
             }
         }
 
+        #[cfg(pavex_verif)]
+        verif::event("workers_told", 0u64, 0u64);
         if let ShutdownMode::Graceful { timeout } = mode {
             // Wait for all workers to shut down, or for the timeout to expire,
             // whichever happens first.
@@ -402,6 +420,8 @@ where
             .await;
         }
 
+        #[cfg(pavex_verif)]
+        verif::event("coordinator_end", 0u64, 0u64);
         // Notify the caller that the server has shut down.
         let _ = completion_notifier.send(());
     }
